@@ -372,6 +372,8 @@ def judge(case, call, rec, faulted):
         if faulted:
             return out  # any refusal is acceptable while faults flow
         if dup:
+            if set(reac) == set(prod):
+                return out  # documented refusal: "reactants and products identical"
             base_feasible = _dup_feasible(case)
             if base_feasible:
                 out.append(core.violation("refused_feasible", "duplicate search raised %s although dropping duplicates leaves a balanced reaction" % rec["outcome"], dict(sigbase, exc=rec["outcome"][6:])))
